@@ -10,9 +10,11 @@ package lab
 import (
 	"encoding/json"
 	"fmt"
+	"math/rand"
 	"sync"
 
 	"github.com/nyaruka/gocommon/httpx"
+	"github.com/nyaruka/gocommon/random"
 	"github.com/nyaruka/goflow/assets"
 	"github.com/nyaruka/goflow/assets/static"
 	"github.com/nyaruka/goflow/envs"
@@ -148,18 +150,34 @@ func (r *Run) Last() flows.Sprint {
 	return r.Sprints[len(r.Sprints)-1]
 }
 
+// fixedDraw is a rand.Source64 that returns the same Int63 value i for every draw, so that
+// rand.Float64 - which math/rand computes as float64(Int63()) / 2^63 - returns exactly
+// float64(i) / 2^63. (world.Draws assumes the Int63n(1<<53) / 2^53 formula, which is not what
+// math/rand does - its draws come out 1024 times too small - so this package owns the seam.)
+type fixedDraw struct {
+	i   uint64
+	hit int
+}
+
+func (d *fixedDraw) Int63() int64   { d.hit++; return int64(d.i & (1<<63 - 1)) }
+func (d *fixedDraw) Uint64() uint64 { return uint64(d.Int63()) << 1 }
+func (d *fixedDraw) Seed(int64)     {}
+
+// DrawValue is the value rand.Float64 returns for the Int63 value i.
+func DrawValue(i uint64) float64 { return float64(int64(i&(1<<63-1))) / (1 << 63) }
+
 // Exec re-arms the seams, starts a session and applies the resumes (world.MakeResume names:
-// "msg:<text>", "timeout", "expire"). Every random draw returns draw (a multiple of 2^-53 in [0,1)).
-func Exec(sa flows.SessionAssets, trig []byte, draw float64, resumes ...string) *Run {
+// "msg:<text>", "timeout", "expire"). Every random draw returns DrawValue(draw63).
+func Exec(sa flows.SessionAssets, trig []byte, draw63 uint64, resumes ...string) *Run {
 	r := &Run{}
 	if _, err := base(); err != nil {
 		r.Err = err
 		return r
 	}
-	d := world.Reset()
-	d.Menu = []float64{draw}
+	world.Reset()
+	d := &fixedDraw{i: draw63}
+	random.SetGenerator(rand.New(d))
 	ch := mc.NewChooser(nil)
-	d.Choose = ch.Choose
 	h := &world.HTTPAnswers{Choose: ch.Choose}
 	httpx.SetRequestor(h)
 	r.Panic = mc.Guard(func() {
@@ -183,6 +201,6 @@ func Exec(sa flows.SessionAssets, trig []byte, draw float64, resumes ...string) 
 			}
 		}
 	})
-	r.Draws = d.Hit
+	r.Draws = d.hit
 	return r
 }
